@@ -11,12 +11,12 @@
 (*  and with Lle_Proof_Embed.ltsa_affine_null every affine function of the *)
 (*  coordinates is an eigenvector of the alignment matrix for its smallest *)
 (*  eigenvalue.  The step  Z Z^T = 0 -> Z = 0  needs a formally real       *)
-(*  field: the section takes "a sum of squares vanishes only if every      *)
-(*  term does" as hypothesis; it is proved for Qc at the end.              *)
+(*  field: the section takes -- a sum of squares vanishes only if every     *)
+(*  term does -- as hypothesis; it is proved for Qc at the end.            *)
 (* ====================================================================== *)
 Require Import Field Ring Arith Lia List Bool.
 From TK Require Import Mat_Sums Mat_Core Lle_Model Lle_Spec Lle_Proof_Triplets Lle_Proof_Lle
-                       Lle_Proof_Ltsa Lle_Proof_Embed Spectral_KyFan.
+                       Lle_Proof_Ltsa Lle_Proof_Embed Lle_Proof_Hlle Lle_Proof_Gs Spectral_KyFan.
 Import ListNotations.
 
 Section Flat.
@@ -97,7 +97,6 @@ Section Flat.
           rewrite (HB b j Hb Hj). unfold mmul, mtrans.
           rewrite <- sumn_mul_l, <- sumn_mul_r. apply sumn_ext. intros; ring. }
       rewrite sumn_swap. apply sumn_zero'. intros j Hj.
-      rewrite (sumn_ext k _ (fun b => (W a b * B b j) * W a j)) by (intros; ring).
       rewrite sumn_mul_r, HWB by assumption. ring. }
     pose proof (sos_zero D (Z a) HZ t Ht) as Hz0. unfold Z, W in Hz0.
     rewrite (sumn_ext k _ (fun b => delta a b * Xc b t - proj_of d V a b * Xc b t)) in Hz0 by (intros; ring).
@@ -106,7 +105,7 @@ Section Flat.
   Qed.
 
   (* what KLTSA's local matrix does to the RAW coordinates of an exactly flat neighbourhood *)
-  Theorem ltsa_flat_local_kills k d D rsk (B E Xc X : mat) (lam m : vec) a t :
+  Theorem ltsa_flat_local_kills k d D rsk (B E Xc X : mat) (lam m : vec) a :
     of_nat k <> 0 -> rsk * rsk * of_nat k = 1 ->
     eig_contract k B E lam -> meq k k (mmul k E (mtrans E)) mI -> d <= k ->
     (forall j, j < k - d -> lam j = 0) ->
@@ -114,10 +113,12 @@ Section Flat.
     meq k k B (mmul D Xc (mtrans Xc)) ->
     (forall b s, b < k -> s < D -> Xc b s = X b s - m s) ->
     (forall s, s < D -> sumn k (fun b => Xc b s) = 0) ->
-    a < k -> t < D ->
-    sumn k (fun b => msub mI (ltsa_P d rsk (right_cols k d E)) a b * X b t) = 0.
+    a < k ->
+    sumn k (fun b => msub mI (ltsa_P d rsk (right_cols k d E)) a b) = 0 /\
+    (forall t, t < D ->
+       sumn k (fun b => msub mI (ltsa_P d rsk (right_cols k d E)) a b * X b t) = 0).
   Proof.
-    intros Hk Hr HC HEEt Hd Hz Hnz HB HXc Hcs Ha Ht.
+    intros Hk Hr HC HEEt Hd Hz Hnz HB HXc Hcs Ha.
     set (V := right_cols k d E).
     (* tangent columns are orthogonal to 1 *)
     assert (HV1 : forall c, c < d -> sumn k (fun b => V b c) = 0).
@@ -129,16 +130,52 @@ Section Flat.
         rewrite sumn_swap. apply sumn_zero'. intros s Hs. rewrite sumn_mul_r, Hcs by assumption. ring.
       - intros i Hi. rewrite (eig_column k B E lam) by (try assumption; lia). unfold mcol. ring.
       - apply Hnz. assumption. }
-    pose proof (flat_projector k d D B E Xc lam a t HC HEEt Hd Hz HB Ha Ht) as HP. fold V in HP.
     pose proof (ltsa_local_annihilates_one k d rsk V a Hr HV1 Ha) as H1.
+    split; [exact H1|]. intros t Ht.
+    pose proof (flat_projector k d D B E Xc lam a t HC HEEt Hd Hz HB Ha Ht) as HP. fold V in HP.
     (* (I - G G^T) X = (I - G G^T) (Xc + 1 m^T) = (I - G G^T) Xc *)
     rewrite (sumn_ext k _ (fun b => msub mI (ltsa_P d rsk V) a b * Xc b t
                                     + m t * msub mI (ltsa_P d rsk V) a b)).
     2:{ intros b Hb. rewrite (HXc b t Hb Ht). ring. }
-    rewrite sumn_add, sumn_mul_l, H1.
+    rewrite sumn_add, sumn_mul_l.
+    replace (sumn k (msub mI (ltsa_P d rsk V) a)) with (0 : F) by (symmetry; exact H1).
     rewrite (sumn_ext k _ (fun b => delta a b * Xc b t - (rsk * rsk) * Xc b t - proj_of d V a b * Xc b t)).
     2:{ intros b _. unfold msub, mI. rewrite ltsa_P_entry. unfold proj_of. ring. }
     rewrite !sumn_sub, sumn_delta_l, sumn_mul_l, HP, Hcs by assumption. ring.
+  Qed.
+  (* the same for HLLE's local matrix H H^T (sqrt-free form): it annihilates 1 and the tangent
+     coordinates (Lle_Proof_Gs), and on an exactly flat neighbourhood the tangent coordinates span
+     the centred coordinates *)
+  Theorem hlle_flat_local_kills k d D (B E Xc X prev : mat) (lam m : vec) a :
+    eig_contract k B E lam -> meq k k (mmul k E (mtrans E)) mI -> d <= k ->
+    (forall j, j < k - d -> lam j = 0) ->
+    meq k k B (mmul D Xc (mtrans Xc)) ->
+    (forall b s, b < k -> s < D -> Xc b s = X b s - m s) ->
+    gs_nondegenerate (hlle_gs_sf false k d prev (right_cols k d E)) ->
+    a < k ->
+    sumn k (fun b => hlle_local_sf false k d prev (right_cols k d E) a b) = 0 /\
+    (forall t, t < D ->
+       sumn k (fun b => hlle_local_sf false k d prev (right_cols k d E) a b * X b t) = 0).
+  Proof.
+    intros HC HEEt Hd Hz HB HXc Hnd Ha.
+    set (V := right_cols k d E) in *.
+    destruct (hlle_local_annihilates k d prev V a Hnd Ha) as [H1 HV].
+    split; [exact H1|]. intros t Ht.
+    set (P := hlle_local_sf false k d prev V) in *.
+    rewrite (sumn_ext k _ (fun b => P a b * Xc b t + m t * P a b)).
+    2:{ intros b Hb. rewrite (HXc b t Hb Ht). ring. }
+    rewrite sumn_add, sumn_mul_l.
+    replace (sumn k (P a)) with (0 : F) by (symmetry; exact H1).
+    rewrite (sumn_ext k _ (fun b => sumn d (fun c => (P a b * V b c) * sumn k (fun b' => V b' c * Xc b' t)))).
+    2:{ intros b Hb.
+        rewrite <- (flat_projector k d D B E Xc lam b t HC HEEt Hd Hz HB Hb Ht). fold V.
+        unfold proj_of.
+        rewrite (sumn_ext k _ (fun b' => sumn d (fun c => V b c * (V b' c * Xc b' t))))
+          by (intros; rewrite <- sumn_mul_r; apply sumn_ext; intros; ring).
+        rewrite sumn_swap, <- sumn_mul_l. apply sumn_ext. intros c _.
+        rewrite sumn_mul_l. ring. }
+    rewrite sumn_swap. rewrite sumn_zero'; [ring|].
+    intros c Hc. rewrite sumn_mul_r. rewrite (HV c Hc). ring.
   Qed.
 End Flat.
 
@@ -174,6 +211,63 @@ Proof.
   destruct (Nat.eq_dec t n) as [->|Hne].
   - cbn [fmul fzero QcOps] in Hs2. apply Qcmult_integral in Hs2. destruct Hs2; assumption.
   - apply IH; [assumption|lia].
+Qed.
+
+(* the last sentence of C08 for KLTSA, from the oracle contract of the local eigensolver:
+   every neighbourhood exactly d-flat (all but the d selected local eigenvalues vanish, the selected
+   ones do not; the local matrix is the Gram matrix of the centred coordinates)  ->  every affine
+   function of the coordinates is an eigenvector of the alignment matrix for the eigenvalue shift *)
+Theorem ltsa_affine_on_flat_Qc :
+  forall (N k d D : nat) (nbr : nat -> nat -> nat) (rsk shift : Qc)
+         (B E Xc : nat -> mat Qc) (lam m : nat -> vec Qc) (X : mat Qc) (y : vec Qc) (r : nat),
+    k <> 0 -> (rsk * rsk * of_nat k)%F = 1%F -> d <= k ->
+    (forall i a, i < N -> a < k -> nbr i a < N) ->
+    (forall i, i < N ->
+       eig_contract k (B i) (E i) (lam i) /\
+       meq k k (mmul k (E i) (mtrans (E i))) mI /\
+       (forall j, j < k - d -> lam i j = 0%F) /\
+       (forall c, c < d -> lam i (k - d + c) <> 0%F) /\
+       meq k k (B i) (mmul D (Xc i) (mtrans (Xc i))) /\
+       (forall b s, b < k -> s < D -> Xc i b s = (X (nbr i b) s - m i s)%F) /\
+       (forall s, s < D -> sumn k (fun b => Xc i b s) = 0%F)) ->
+    affine_in N D X y -> r < N ->
+    mv N (ltsa_M_spec N k nbr (fun i => ltsa_P d rsk (right_cols k d (E i))) shift) y r = (shift * y r)%F.
+Proof.
+  intros N k d D nbr rsk shift B E Xc lam m X y r Hk Hr Hd Hn Hloc Hy Hr'.
+  apply (ltsa_affine_null N k D nbr _ shift X y r Hn); try assumption.
+  - intros i a Hi Ha. destruct (Hloc i Hi) as [HC [HE [Hz [Hnz [HB [HX Hcs]]]]]].
+    apply (proj1 (@ltsa_flat_local_kills Qc QcOps QcField Qc_sos_zero k d D rsk (B i) (E i) (Xc i)
+                    (fun b s => X (nbr i b) s) (lam i) (m i) a
+                    (Qc_of_nat_neq0 k Hk) Hr HC HE Hd Hz Hnz HB HX Hcs Ha)).
+  - intros i t a Hi Ht Ha. destruct (Hloc i Hi) as [HC [HE [Hz [Hnz [HB [HX Hcs]]]]]].
+    apply (proj2 (@ltsa_flat_local_kills Qc QcOps QcField Qc_sos_zero k d D rsk (B i) (E i) (Xc i)
+                    (fun b s => X (nbr i b) s) (lam i) (m i) a
+                    (Qc_of_nat_neq0 k Hk) Hr HC HE Hd Hz Hnz HB HX Hcs Ha) t Ht).
+Qed.
+
+Theorem hlle_affine_on_flat_Qc :
+  forall (N k d D : nat) (nbr : nat -> nat -> nat)
+         (B E Xc prev : nat -> mat Qc) (lam m : nat -> vec Qc) (X : mat Qc) (y : vec Qc) (r : nat),
+    d <= k ->
+    (forall i a, i < N -> a < k -> nbr i a < N) ->
+    (forall i, i < N ->
+       eig_contract k (B i) (E i) (lam i) /\
+       meq k k (mmul k (E i) (mtrans (E i))) mI /\
+       (forall j, j < k - d -> lam i j = 0%F) /\
+       meq k k (B i) (mmul D (Xc i) (mtrans (Xc i))) /\
+       (forall b s, b < k -> s < D -> Xc i b s = (X (nbr i b) s - m i s)%F) /\
+       gs_nondegenerate (hlle_gs_sf false k d (prev i) (right_cols k d (E i)))) ->
+    affine_in N D X y -> r < N ->
+    mv N (hlle_M_spec N k nbr (fun i => hlle_local_sf false k d (prev i) (right_cols k d (E i)))) y r = 0%F.
+Proof.
+  intros N k d D nbr B E Xc prev lam m X y r Hd Hn Hloc Hy Hr'.
+  apply (hlle_affine_null N k D nbr _ X y r Hn); try assumption.
+  - intros i a Hi Ha. destruct (Hloc i Hi) as [HC [HE [Hz [HB [HX Hnd]]]]].
+    apply (proj1 (@hlle_flat_local_kills Qc QcOps QcField Qc_sos_zero k d D (B i) (E i) (Xc i)
+                    (fun b s => X (nbr i b) s) (prev i) (lam i) (m i) a HC HE Hd Hz HB HX Hnd Ha)).
+  - intros i t a Hi Ht Ha. destruct (Hloc i Hi) as [HC [HE [Hz [HB [HX Hnd]]]]].
+    apply (proj2 (@hlle_flat_local_kills Qc QcOps QcField Qc_sos_zero k d D (B i) (E i) (Xc i)
+                    (fun b s => X (nbr i b) s) (prev i) (lam i) (m i) a HC HE Hd Hz HB HX Hnd Ha) t Ht).
 Qed.
 
 Definition flat_projector_Qc := @flat_projector Qc QcOps QcField Qc_sos_zero.
